@@ -87,3 +87,32 @@ proof fn lemma_val_skip(items: Seq<BItem>, a: int, skip_ws: bool, in_calc: bool)
         assert(val_events(items, a + 1, skip_ws, in_calc) =~= val_events(items, a, skip_ws, in_calc));
     }
 }
+// ---- the head of the @import rewrite (C18): the wrappers opened for the import's conditions ----
+//  * every block the head opens and does not close itself is a `{` wrapper whose closer is on the stack it hands to the
+//    tail, in opening order -- so that the tail (unit CSSTR: comment, then the stack popped) leaves the output balanced.
+spec fn dep(e: Ev) -> int { match e { Ev::Open { .. } => 1, Ev::Close { .. } => -1, _ => 0 } }
+/// blocks opened and not yet closed
+spec fn depth(evs: Seq<Ev>) -> int
+    decreases evs.len(),
+{
+    if evs.len() == 0 { 0 } else { depth(evs.drop_last()) + dep(evs.last()) }
+}
+broadcast proof fn lemma_depth_push(l: Seq<Ev>, e: Ev)
+    ensures #[trigger] depth(l.push(e)) == depth(l) + dep(e),
+{
+    assert(l.push(e).drop_last() =~= l);
+}
+spec fn curly_closers(st: Seq<StepToken<'static>>) -> bool {
+    forall|k: int| 0 <= k < st.len() ==> tokv(#[trigger] st[k].token) == TokV::CloseCurlyBracket
+}
+broadcast proof fn lemma_fnw(items: Seq<BItem>, c: int)
+    ensures ({
+        let r = #[trigger] first_non_ws(items, c);
+        &&& r <= items.len()
+        &&& (0 <= c <= items.len() ==> c <= r)
+        &&& (0 <= r < items.len() ==> !(items[r].tok is WhiteSpace) && first_non_ws(items, r) == r)
+    }),
+    decreases items.len() - c,
+{
+    if 0 <= c < items.len() && items[c].tok is WhiteSpace { lemma_fnw(items, c + 1); }
+}
